@@ -29,10 +29,13 @@ def step (s : Unit) (f : List String) : Unit × String :=
       let d ← Driver.kv f "d"
       let rh ← headerLines f "rh"
       let st := Driver.kvNat f "s" 200
-      -- the error handler is not involved: the inner handler returns normally
-      let back := relay { status := st, header := mkHdr rh, body := d }
-      some (squeeze (toString back.status ++ " body=" ++ back.body ++ " H " ++ showHdr back.header clientDrop
-        ++ tail .ret (toString back.status)))
+      let n := ((d.splitOn ":").headD "").toNat?.getD 0
+      -- the backend delivers the whole body: the error handler is not involved, the handler returns
+      let out := relayOutcome { status := st, header := mkHdr rh, body := d } n none
+      let back := out.1
+      some (squeeze ((if out.2.1 then toString back.status ++ " body=" ++ back.body ++ " H " ++ showHdr back.header clientDrop
+                      else "aborted")
+        ++ tail out.2.2 (toString back.status)))
     (s, r.getD "bad-op")
   | ["fail", m] =>
     match failMode m with
@@ -42,11 +45,15 @@ def step (s : Unit) (f : List String) : Unit × String :=
       let st := toString (classify fm.kind.info)
       (s, (if fm = .clientCancel then "gone" else st) ++ tail .ret st)
   | "abort" :: _ =>
-    let n := Driver.kvNat f "n" 0
-    let sent := Driver.kvNat f "sent" 0
-    if sent ≥ n then (s, "bad-op") else
-    -- the response head was relayed, then `copyResponse` failed: `panic(http.ErrAbortHandler)`
-    (s, "aborted" ++ tail (.panic "net/http: abort Handler") (toString (Driver.kvNat f "s" 200)))
+    let r : Option String := do
+      let rh ← headerLines f "rh"
+      let n := Driver.kvNat f "n" 0
+      let sent := Driver.kvNat f "sent" 0
+      if sent ≥ n then none
+      -- the head is relayed, then the body copy fails: `Fwd.relayOutcome` says how the handler ends
+      let out := relayOutcome { status := Driver.kvNat f "s" 200, header := mkHdr rh, body := "" } n (some sent)
+      some ((if out.2.1 then toString out.1.status else "aborted") ++ tail out.2.2 (toString out.1.status))
+    (s, r.getD "bad-op")
   | "presp" :: _ =>
     let r : Option String := do
       let d ← Driver.kv f "d"
